@@ -3803,7 +3803,8 @@ let aligned_b eq =
 (** val text_guard : char list -> bool **)
 
 let text_guard eq =
-  (&&) (aligned_b eq) (gaps_brace_free (scan_items eq))
+  (&&) ((&&) (negb ((&&) (head_is '`' eq) (last_is '`' eq))) (aligned_b eq))
+    (gaps_brace_free (scan_items eq))
 
 type ctok =
 | CRead of char list * z
@@ -4180,6 +4181,23 @@ let stmt_of_tokens row = function
 let stmt_of_equation row eq =
   stmt_of_tokens row (lex_items LNone (scan_items eq))
 
+(** val ends_with_2 : char -> char list -> bool **)
+
+let rec ends_with_2 c = function
+| [] -> false
+| a::r ->
+  (match r with
+   | [] -> false
+   | b::s1 ->
+     (match s1 with
+      | [] -> (&&) ((=) a c) ((=) b c)
+      | _::_ -> ends_with_2 c r))
+
+(** val mangled : char list -> bool **)
+
+let mangled name =
+  (&&) (head_is '_' name) (negb (ends_with_2 '_' ('_'::name)))
+
 (** val names_of_type : ptype -> symbol list -> char list list **)
 
 let names_of_type ty syms =
@@ -4208,6 +4226,11 @@ let rec index_of x = function
         | Some i -> Some (S i)
         | None -> None)
 
+(** val row_of : char list list -> char list -> nat option **)
+
+let row_of names x =
+  if mangled x then None else index_of x names
+
 (** val assoc_stmt : char list -> (char list * sstmt) list -> sstmt option **)
 
 let rec assoc_stmt n0 = function
@@ -4221,8 +4244,7 @@ let program_of_symbols syms stmts =
   if existsb (fun s -> type_eqb s.stype TVerbatim) syms
   then None
   else let names = names_of syms in
-       (match all_some
-                (map (stmt_of_equation (fun x -> index_of x names)) stmts) with
+       (match all_some (map (stmt_of_equation (row_of names)) stmts) with
         | Some defs ->
           (match all_some
                    (map (fun s ->
